@@ -20,7 +20,7 @@ import (
 const PoolSize = 7
 
 // Pool ingests tables that share blocks pairwise: five 300-row (2-block) variants differing in a
-// row of the second block, of the first block, in both, or everywhere, plus a 255-row and a 510-row
+// row of the second block, of the first block, in both, or everywhere (that one with an empty last cell at the end of each block), plus a 255-row and a 510-row
 // table (row counts that are exact multiples of the block size).
 func Pool(db objects.Store) ([][]byte, error) {
 	var sums [][]byte
@@ -42,6 +42,10 @@ func Pool(db objects.Store) ([][]byte, error) {
 			}
 			if v == 4 {
 				val = "all-different"
+				// the last cell of each block is empty: the block's bytes end with a zero length
+				if i == 254 || i == 299 {
+					val = ""
+				}
 			}
 			t.Rows = append(t.Rows, []gen.Cell{gen.Cell(fmt.Sprintf("k%05d", i)), gen.Cell(val)})
 		}
